@@ -2,7 +2,8 @@
    Model: Locks.v.  Locks are (rank, instance): 0 history list, 1 registry of live contexts, 2 a context,
    3 rule list.  Ext is a wait for a peer that may never speak (a stalled client, a slow upstream).  The lock
    programs of the real functions are regenerated from the source on every run (Gen_locks.v). *)
-From RP Require Import Base Locks LocksProofs.
+From RP Require Import Base Locks LocksProofs ServeLoop.
+From Coq Require Import String.
 From RP.Gen Require Gen_locks.
 Local Open Scope nat_scope.
 
@@ -53,3 +54,23 @@ Print Assumptions C14_ext_step_preserves_ok.
 Example C14_old_handshake_refuted :
   rank_disciplined [] [Gen_locks.Acq 2; Gen_locks.Ext; Gen_locks.Rel 2] = false.
 Proof. reflexivity. Qed.
+
+(* ---- accept loops: a client stalled in its handshake must not keep others from connecting ------------------------ *)
+
+(* On every listener whose source the translator reads (http, socks, quic) the handshake is awaited in a task of the peer's
+   own, so every connection attempt is taken up the moment it arrives - whatever the other peers do, including never
+   completing their handshake.  (`inline_of` looks the listener up in Gen_locks.accept_loop_awaits_handshake_inline.) *)
+Theorem C14_accept_loops_never_wait_for_a_handshake : forall listener atts free_at,
+  In listener ["http"; "socks"; "quic"]%string ->
+  serve (inline_of listener) free_at atts = map (fun a => Some (fst a)) atts.
+Proof.
+  intros l atts f [<-|[<-|[<-|[]]]]; exact (spawned_handshakes_never_delay atts f).
+Qed.
+Print Assumptions C14_accept_loops_never_wait_for_a_handshake.
+
+(* what the QUIC listener did before its repair: the handshake was awaited in the accept loop; a single client whose
+   handshake never completes (one packet is enough) kept every later client out *)
+Theorem C14_inline_handshake_refuted : forall t atts free_at,
+  serve true free_at ((t, None) :: atts) = hd None (serve true free_at [(t, None)]) :: map (fun _ => None) atts.
+Proof. exact inline_handshake_blocks_everyone. Qed.
+Print Assumptions C14_inline_handshake_refuted.
